@@ -8,26 +8,27 @@ set_option linter.unusedSimpArgs false
 
 namespace ThriftVerif.Schema
 
-theorem typeReference_eq (t : Ty) : typeReference t = if t.isStruct then "*" ++ typeName t else typeName t := by
-  cases t <;> simp [typeReference]
+theorem typeReference_eq (t : Ty) : typeReference t = if t.isStruct then "*" ++ typeName t else typeName t := rfl
+
+theorem refOf_typeName (t : Ty) : refOf t (typeName t) = typeReference t := rfl
 
 /-- elements of containers (always built with required = true). -/
 theorem format_build_req (t : Ty) : formatType (buildType t true) = typeReference t := by
   induction t with
   | typedef n t ih =>
     simp only [buildType, typeReference_eq]
-    by_cases hs : (Ty.typedef n t).isStruct <;> simp [hs, formatType, typeName]
+    by_cases hs : (Ty.typedef n t).isStruct <;> simp [hs, formatType, typeName, refOf_typeName]
   | map k v ihk ihv =>
     simp only [buildType, typeReference_eq]
-    by_cases hp : k.isPrim <;> simp [hp, formatType, typeName, ihk, ihv, Ty.isStruct, Ty.root]
-  | list e ih => simp [buildType, typeReference_eq, formatType, typeName, ih, Ty.isStruct, Ty.root]
+    by_cases hp : k.isPrim <;> simp [hp, formatType, typeName, refOf_typeName, ihk, ihv, Ty.isStruct, Ty.root]
+  | list e ih => simp [buildType, typeReference_eq, formatType, typeName, refOf_typeName, ih, Ty.isStruct, Ty.root]
   | set e ih =>
     simp only [buildType, typeReference_eq]
-    by_cases hp : e.isPrim <;> simp [hp, formatType, typeName, ih, Ty.isStruct, Ty.root]
+    by_cases hp : e.isPrim <;> simp [hp, formatType, typeName, refOf_typeName, ih, Ty.isStruct, Ty.root]
   | sset e ih =>
     simp only [buildType, typeReference_eq]
-    by_cases hp : e.isPrim <;> simp [hp, formatType, typeName, ih, Ty.isStruct, Ty.root]
-  | _ => simp [buildType, typeReference_eq, formatType, typeName, Ty.isStruct, Ty.root]
+    by_cases hp : e.isPrim <;> simp [hp, formatType, typeName, refOf_typeName, ih, Ty.isStruct, Ty.root]
+  | _ => simp [buildType, typeReference_eq, formatType, typeName, refOf_typeName, Ty.isStruct, Ty.root]
 
 /-- C19: for every type and both requiredness rules, format(build t) is the field's Go type. -/
 theorem format_build_eq_core (t : Ty) (req : Bool) : formatType (buildType t req) = goType t req := by
@@ -43,20 +44,20 @@ theorem format_build_eq_core (t : Ty) (req : Bool) : formatType (buildType t req
           simp only [Ty.isStruct, Ty.isRef] at hs ⊢
           generalize (Ty.typedef n t).root = r at hs ⊢
           cases r <;> simp_all
-        simp [hs, hr, formatType, typeName]
-      · by_cases hr : (Ty.typedef n t).isRef <;> simp [hs, hr, formatType, typeName]
+        simp [hs, hr, formatType, typeName, refOf_typeName]
+      · by_cases hr : (Ty.typedef n t).isRef <;> simp [hs, hr, formatType, typeName, refOf_typeName]
     | map k v =>
       have hk := format_build_req k
       have hv := format_build_req v
       simp only [buildType]
-      by_cases hp : k.isPrim <;> simp [hp, formatType, typeName, hk, hv, Ty.isRef, Ty.root]
-    | list e => simp [buildType, formatType, typeName, format_build_req e, Ty.isRef, Ty.root]
+      by_cases hp : k.isPrim <;> simp [hp, formatType, typeName, refOf_typeName, hk, hv, Ty.isRef, Ty.root]
+    | list e => simp [buildType, formatType, typeName, refOf_typeName, format_build_req e, Ty.isRef, Ty.root]
     | set e =>
       simp only [buildType]
-      by_cases hp : e.isPrim <;> simp [hp, formatType, typeName, format_build_req e, Ty.isRef, Ty.root]
+      by_cases hp : e.isPrim <;> simp [hp, formatType, typeName, refOf_typeName, format_build_req e, Ty.isRef, Ty.root]
     | sset e =>
       simp only [buildType]
-      by_cases hp : e.isPrim <;> simp [hp, formatType, typeName, format_build_req e, Ty.isRef, Ty.root]
-    | _ => simp [buildType, formatType, typeName, Ty.isRef, Ty.root]
+      by_cases hp : e.isPrim <;> simp [hp, formatType, typeName, refOf_typeName, format_build_req e, Ty.isRef, Ty.root]
+    | _ => simp [buildType, formatType, typeName, refOf_typeName, Ty.isRef, Ty.root]
 
 end ThriftVerif.Schema
